@@ -79,6 +79,18 @@ func runC14(c *core.Ctx) {
 			stray = true
 			c.Count("print_with_stray_arguments", 1)
 		}
+		if i%6 == 2 && layout == "2006/01/02" {
+			// a date format that is set but empty (an exported but empty variable, --date-format ""): the command may
+			// refuse; if it prints, what it prints is the log in normal form
+			env = map[string]string{}
+			if r.Intn(2) == 0 {
+				env["HR_DATE_FORMAT"] = ""
+			} else {
+				args1 = append([]string{"--date-format", ""}, args1...)
+			}
+			stray = true
+			c.Count("print_with_an_empty_date_format", 1)
+		}
 		p1 := srv.App1(args1, env)
 		c.Eval(1)
 		doc := caseDoc{Files: files, Args: args1, Env: env, Observed: resDoc(p1)}
